@@ -126,6 +126,7 @@ class Stats:
         self.counters = {}
         self.samples = []
         self.inconclusive = 0
+        self.watchdogs = 0
         self.inconclusive_samples = []
         self.excluded = 0
         self.times = []
@@ -241,6 +242,10 @@ def _search_worker(args):
             res = execute(mod, case, ctx, case_limit(stats))
         except Inconclusive as e:
             stats.inconclusive += 1
+            if str(e) == 'watchdog':
+                stats.watchdogs += 1
+                if stats.watchdogs >= 3:
+                    raise HarnessError('three cases hit the per-case watchdog; giving up on this shard (inconclusive)')
             k = f'inconclusive:{e}'
             stats.classes[k] = stats.classes.get(k, 0) + 1
             if len(stats.inconclusive_samples) < 2:
